@@ -94,10 +94,24 @@ def run(run, scr, tier, seed, only=None):
         open_sites = site_inventory(run, sess, funcs)
     except e2.Refuse as ex:
         run.inconclusive.append('E2 refused: ' + str(ex))
-    # decoders on arbitrary bytes: the hint-section decoder with all of Kani's default checks (index bounds, overflow, debug_assert)
-    win = ['c08_hint_window_0', 'c08_hint_window_2', 'c08_hint_window_4'][seed % 3]
-    hs = [Harness('verif_kani::c08::' + win, 'C13', timeout=2400, loop_rules=[(r'hint_bit_unpack::<2>', 12)],
-                  bounds='hint_bit_unpack::<2>(omega = 8): both count bytes and a 4-byte index window symbolic; every index / overflow / debug assertion of the real decoder')]
+    # decoders on arbitrary bytes: loop-step lemmas of hint_bit_unpack incl. every index-bounds / overflow obligation of its checked MIR
+    # under the loop invariant (K, omega symbolic); if the decoder was restructured so that the lemmas do not apply, the Kani window harness decides
+    import hintlemmas
+    hres = []
+    try:
+        hintlemmas.run(funcs, hres)
+        run.functions.append('MIR hint_bit_unpack (loop-step lemmas with panic obligations)')
+    except Exception as ex:
+        hres = [{'name': 'hint_bit_unpack loop lemmas', 'verdict': 'refused', 'detail': repr(ex)}]
+    hint_bad = [r for r in hres if r['verdict'] == 'mismatch']
+    hint_refused = any(r['verdict'] == 'refused' for r in hres)
+    for r in hres:
+        run.add_query({'name': r['name'], 'engine': 'E2 loop-step lemma', 'verdict': 'holds' if r['verdict'] == 'holds' else ('sat' if r['verdict'] == 'mismatch' else 'refused'), 'detail': r['detail'][:300]}, core=r['verdict'] != 'refused')
+    hs = []
+    if hint_refused or hint_bad or tier == 'thorough':
+        win = ['c08_hint_window_0', 'c08_hint_window_2', 'c08_hint_window_4']
+        hs = [Harness('verif_kani::c08::' + w, 'C13', timeout=2400, loop_rules=[(r'hint_bit_unpack::<2>', 12)],
+                      bounds='hint_bit_unpack::<2>(omega = 8): both count bytes and a 4-byte index window symbolic; every index / overflow / debug assertion of the real decoder') for w in win]
     if tier == 'thorough':
         hs += [Harness('verif_kani::c10::c10_bit_unpack_eta2', 'C13', timeout=1800, bounds='bit_unpack on every 96-byte string, all default checks')]
     kres = vlib.run_kani(scr, hs, jobs=2)
@@ -126,6 +140,13 @@ def run(run, scr, tier, seed, only=None):
         key = 'panic:' + f + ':' + re.sub(r'\s+', ' ', text)[:60]
         path = vlib.save_replay('C13', 'hostile', {'property': 'C13', 'kind': 'hostile', 'location': loc, 'source_line': text, 'cases': [m for m in msgs][:6]})
         run.violation(key, f'public API panics at {loc} (`{text}`) on accepted hostile input: {msgs[:2]}', path)
+    if hint_bad and not decoder_panics and not locs:
+        from props import c08
+        res8, msgs8 = c08.native(scr)
+        path = vlib.save_replay('C13', 'decoder', {'property': 'C13', 'kind': 'decoder', 'lemmas': [(r['name'], r['detail']) for r in hint_bad], 'native': res8})
+        if any('PANICS' in m for m in msgs8):
+            run.violation('panic:decoder:hint_bit_unpack', f'hint decoder panics on hostile bytes: {hint_bad[0]["detail"][:200]}; native: {msgs8[:2]}', path)
+        # a functional (non-panicking) deviation of the decoder is C08's business, not C13's
     if decoder_panics and not locs:
         # confirm through the structured codec differential (hostile hint sections at the real (K, omega))
         from props import c08
